@@ -1,7 +1,8 @@
 import BarterModel.Driver.Common
 import BarterModel.Model.Backtest
 /-! Line-protocol driver for C20.
-Ops: `data_slow g k ...` (same as `data`, paced source), `data k (i:p | R) ...` (`R` = `MarketStreamEvent::Reconnecting` marker, anywhere), `strat t:i:s:q ...` | `strat -`, `run n w`.
+Ops: `data_slow g k ...` (same as `data`, paced source), `data k (i:p | R) ...` (`R` = `MarketStreamEvent::Reconnecting` marker, anywhere), `strat t:i:s:q ...` | `strat -`, `run n w`,
+`longdata n k rp ro pm tm` (a LONG dataset given by the formula `Backtest.genEv`; `run` then prints the digests `lseen` / `linst` / `lreqs`).
 
 `model` runs every strategy parameterisation alone with `run` under a lazy and an eager action list
 (`schedActs`); for small systems it also builds the N machines, interleaves their action lists
@@ -11,6 +12,14 @@ theorem) and checks that every machine ended as it does alone (`bad-state isolat
 `eng = engFold processed` on the final state; `alone` is `1` when the two extreme schedules give the
 same account-side summary and the non-deterministic token `{0|1}` when they do not (the real result
 then depends on how tokio interleaves the execution responses with `Shutdown`).
+
+Long datasets (`longdata`): `model` folds the digesting engine `lEngine` over the generated dataset
+(`marketFold`: by `long_digest_schedule_independent` that is the digest under EVERY schedule that ends
+with `Shutdown`, and by `long_digest_refines_recording` it is the digest of what `cEngine` records);
+`alone` is `1` when the account view after every execution response (the eager extreme) equals the
+initial one (the lazy extreme), `{0|1}` otherwise. `spec` states the digest from the op alone: `n`
+stream events, `order=ok`, no repeats, nothing skipped, last position `n-1`, content hash / per
+instrument figures folded over the formula, and the requests in closed form (`specReqs`).
 
 `spec` is written from the property text only: every backtest sees exactly the dataset in order,
 markers included (per instrument: the sub-sequence of that instrument's Items), its summary is its own engine's, and it is
@@ -23,12 +32,21 @@ structure PlanRes where
   lazyS : BT CEng CExch MktEv AccEv
   eagerS : BT CEng CExch MktEv AccEv
 
+/-- one strategy parameterisation over a long dataset: final digesting engine (any schedule that ends
+with `Shutdown`), and whether the account view is the same at both scheduling extremes -/
+structure LRes where
+  fin : LEng
+  det : Bool
+
 structure St where
   k : Nat
   ds : List MktEv
   plans : List (List PlanItem)
   /-- per-plan results, computed at the first `run` of a case (they do not depend on `n`, `w`) -/
   cache : Option (List PlanRes) := none
+  /-- `longdata`: the dataset is `genData p`, observations are digests -/
+  lp : Option LParams := none
+  lcache : Option (List LRes) := none
 
 def parseEvents (k : Nat) (toks : List String) : Option (List MktEv) :=
   let rec go (pos : Nat) : List String → Option (List MktEv)
@@ -148,8 +166,102 @@ def runModel (s : St) (n : Nat) (res : List PlanRes) : List String :=
         line ["alone", toString b, if det then "1" else "{0|1}"] ]
     | none => ["bad-state"]
 
+
+/-! ### long datasets -/
+
+def parseLong : List String → Option LParams
+  | [n, k, rp, ro, pm, tm] =>
+    match n.toNat?, k.toNat?, rp.toNat?, ro.toNat?, pm.toNat?, tm.toNat? with
+    | some n, some k, some rp, some ro, some pm, some tm =>
+      if 1 ≤ n ∧ 1 ≤ k ∧ 1 ≤ pm ∧ (rp = 0 ∨ ro < rp) then some ⟨n, k, rp, ro, pm, tm⟩ else none
+    | _, _, _, _, _, _ => none
+  | _ => none
+
+def longHasItem (p : LParams) : Bool := (List.range p.n).any fun pos => !p.isMarker pos
+
+def kv (k : String) (v : String) : String := k ++ "=" ++ v
+
+def optStr : Option Nat → String
+  | some x => toString x
+  | none => "none"
+
+/-- One backtest over the long dataset. Market side: `marketFold` of the digesting engine (schedule
+independent). Account side: lazy extreme = nothing processed = initial view; eager extreme = the
+initial snapshot and every response of the exchange to the requests, in order. -/
+def longRes (p : LParams) (plan : List PlanItem) : LRes :=
+  let e0 := lEng0 p plan
+  let fin := marketFold lEngine e0 (genData p)
+  let resp := (respondAll cExchange { k := p.k, bal := initBals p.k } fin.mv.reqs).2
+  let eager := (AccEv.snapshot (initBals p.k) :: resp).foldl AView.onAccount e0.av
+  { fin := fin, det := eager == e0.av }
+
+def seenLine (b : Nat) (n : Nat) (d : SeqDig) (h : Nat) : String :=
+  line ["lseen", toString b, kv "n" (toString d.cnt), kv "items" (toString d.items), kv "R" (toString d.markers),
+        kv "order" (match d.firstBad with
+          | some i => toString i
+          | none => if d.cnt < n then toString d.cnt else "ok"),
+        kv "dups" (toString d.dups), kv "skipped" (toString (d.skipped + (n - d.expect))),
+        kv "last" (if d.expect == 0 then "-" else toString (d.expect - 1)), kv "h" (toString h)]
+
+def runLongModel (s : St) (p : LParams) (n : Nat) (res : List LRes) : List String :=
+  (List.range n).flatMap fun b =>
+    match res[b % s.plans.length]? with
+    | some r =>
+      [ seenLine b p.n r.fin.dg.seq r.fin.dg.hash ] ++
+      ((List.range p.k).map fun j =>
+        let d := r.fin.dg.inst.getD j (0, 0)
+        line ["linst", toString b, toString j, kv "n" (toString d.1), kv "h" (toString d.2),
+              kv "px" (optStr ((r.fin.mv.price[j]?).join))]) ++
+      [ line ["lreqs", toString b, " ".intercalate (r.fin.mv.reqs.map reqStr)],
+        -- `summary_own_engine` holds for every engine and schedule
+        line ["own", toString b, "1"],
+        line ["alone", toString b, if r.det then "1" else "{0|1}"] ]
+    | none => ["bad-state"]
+
+/-- The requests of the plan strategy over the dataset of `p`, in closed form: item `j` (plan sorted by
+trigger) is sent after the `c_j`-th Item, `c_j = max(trigger_j, c_(j-1), first Item of its instrument)`,
+at the price of the last Item of its instrument among the first `c_j` Items; an item that can never be
+sent blocks the ones behind it. -/
+def specReqs (p : LParams) (plan : List PlanItem) : List Req :=
+  let itemPos : Array Nat := ((List.range p.n).filter fun pos => !p.isMarker pos).toArray
+  let instOf (pos : Nat) : Nat := (genEv p pos).ev.inst
+  let firstCount (i : Nat) : Option Nat := (itemPos.findIdx? fun pos => instOf pos == i).map (· + 1)
+  let priceAt (i c : Nat) : Option Nat :=
+    (((itemPos.extract 0 c).toList.reverse.find? fun pos => instOf pos == i)).map fun pos => (genEv p pos).ev.price
+  let rec go (idx cPrev : Nat) : List PlanItem → List Req
+    | [] => []
+    | it :: rest =>
+      match firstCount it.inst with
+      | none => []
+      | some fc =>
+        let c := max (max it.trigger cPrev) fc
+        if c > itemPos.size then [] else
+        match priceAt it.inst c with
+        | some px => ⟨idx, it, px⟩ :: go (idx + 1) c rest
+        | none => []
+  go 0 0 plan
+
+/-- The property text over the dataset of `p`, as digests: every backtest processed exactly the `n`
+dataset elements, in order (`order=ok`), none twice, none skipped, the last one being position `n-1`;
+content hash, per-instrument figures and the strategy's requests are those of the dataset. -/
+def runLongSpec (s : St) (p : LParams) (n : Nat) : List String :=
+  let pos := List.range p.n
+  let items := (pos.filter fun x => !p.isMarker x).length
+  let h := pos.foldl (fun h x => mixEv h (genEv p x)) 0
+  let instLines (b : Nat) := (List.range p.k).map fun j =>
+    let mine := pos.filter fun x => !p.isMarker x && (genEv p x).ev.inst == j
+    line ["linst", toString b, toString j, kv "n" (toString mine.length),
+          kv "h" (toString (mine.foldl mix 0)), kv "px" (optStr (mine.getLast?.map fun x => (genEv p x).ev.price))]
+  let reqs := s.plans.map (specReqs p)
+  (List.range n).flatMap fun b =>
+    [ line ["lseen", toString b, kv "n" (toString p.n), kv "items" (toString items), kv "R" (toString (p.n - items)),
+            kv "order" "ok", kv "dups" "0", kv "skipped" "0", kv "last" (toString (p.n - 1)), kv "h" (toString h)] ] ++
+    instLines b ++
+    [ line ["lreqs", toString b, " ".intercalate ((reqs.getD (b % s.plans.length) []).map reqStr)],
+      line ["own", toString b, "1"], line ["alone", toString b, "1"] ]
+
 def model : Drv St where
-  init := ⟨0, [], [], none⟩
+  init := { k := 0, ds := [], plans := [] }
   step s toks :=
     match unpace toks with
     | none => (s, ["bad-op"])
@@ -159,16 +271,28 @@ def model : Drv St where
       match k.toNat? with
       | some k =>
         match parseEvents k evs with
-        | some ds => (⟨k, ds, [], none⟩, [s!"data {k} {ds.length}"])
+        | some ds => ({ k := k, ds := ds, plans := [] }, [s!"data {k} {ds.length}"])
         | none => (s, ["bad-op"])
+      | none => (s, ["bad-op"])
+    | "longdata" :: args =>
+      match parseLong args with
+      | some p => ({ k := p.k, ds := [], plans := [], lp := some p }, [s!"longdata {p.k} {p.n}"])
       | none => (s, ["bad-op"])
     | "strat" :: items =>
       match parsePlan s.k items with
-      | some p => ({ s with plans := s.plans ++ [p], cache := none }, [s!"strat {s.plans.length}"])
+      | some p => ({ s with plans := s.plans ++ [p], cache := none, lcache := none }, [s!"strat {s.plans.length}"])
       | none => (s, ["bad-op"])
     | ["run", n, w] =>
       match n.toNat?, w.toNat? with
       | some n, some _ =>
+        if let some p := s.lp then
+          if s.plans.isEmpty then (s, ["bad-op"]) else
+          if !longHasItem p then (s, ["panic"]) else
+          let res := match s.lcache with
+            | some r => r
+            | none => s.plans.map (longRes p)
+          ({ s with lcache := some res }, runLongModel s p n res)
+        else
         if s.plans.isEmpty || s.ds.isEmpty then (s, ["bad-op"]) else
         if !hasItem s.ds then (s, ["panic"]) else
         let res := match s.cache with
@@ -201,7 +325,7 @@ def runSpec (s : St) (n : Nat) : List String :=
     [ line ["own", toString b, "1"], line ["alone", toString b, "1"] ]
 
 def spec : Drv St where
-  init := ⟨0, [], [], none⟩
+  init := { k := 0, ds := [], plans := [] }
   step s toks :=
     match unpace toks with
     | none => (s, ["bad-op"])
@@ -211,8 +335,12 @@ def spec : Drv St where
       match k.toNat? with
       | some k =>
         match parseEvents k evs with
-        | some ds => (⟨k, ds, [], none⟩, [])
+        | some ds => ({ k := k, ds := ds, plans := [] }, [])
         | none => (s, ["bad-op"])
+      | none => (s, ["bad-op"])
+    | "longdata" :: args =>
+      match parseLong args with
+      | some p => ({ k := p.k, ds := [], plans := [], lp := some p }, [])
       | none => (s, ["bad-op"])
     | "strat" :: items =>
       match parsePlan s.k items with
@@ -221,6 +349,11 @@ def spec : Drv St where
     | ["run", n, w] =>
       match n.toNat?, w.toNat? with
       | some n, some _ =>
+        if let some p := s.lp then
+          if s.plans.isEmpty then (s, ["bad-op"])
+          else if !longHasItem p then (s, ["panic"])
+          else (s, runLongSpec s p n)
+        else
         if s.plans.isEmpty || s.ds.isEmpty then (s, ["bad-op"])
         else if !hasItem s.ds then (s, ["panic"])  -- documented precondition: at least one Item
         else (s, runSpec s n)
